@@ -2,6 +2,7 @@ package sim
 
 import (
 	"fmt"
+	"net/http"
 	"os"
 	"regexp"
 	"sort"
@@ -88,6 +89,10 @@ type Sim struct {
 	recovering    bool
 	recSteps      int
 	orng          *Rng
+	rrng          *Rng
+	router        http.Handler
+	restReads     int
+	restErrors    int
 	lastMalformed malformedCase
 	lastReload    reloadResult
 }
@@ -403,7 +408,13 @@ func (s *Sim) exec(op Op) {
 	case "sched":
 		sh.sched = true
 		sh.mu.Unlock()
-		s.sc.Scheduler.SimScheduleOnce()
+		if !s.cfg.Auto {
+			s.sc.Scheduler.SimScheduleOnce()
+		}
+		sh.mu.Lock()
+	case "rest":
+		sh.mu.Unlock()
+		s.restRead(op.N)
 		sh.mu.Lock()
 	case "tick":
 		sh.mu.Unlock()
